@@ -54,8 +54,11 @@ Init ==
      \/ Mode = "raster" /\ img \in [shape : {"2x3", "4x5"}, colour : BOOLEAN,
                                    channel : {"none", "one", "two", "all"}, aniso : BOOLEAN] /\ hist = <<>>
 
-SaveLoadH5 == /\ Mode = "h5" /\ steps < MaxCycles
-              /\ hist' = Append(hist, "h5") /\ steps' = steps + 1 /\ UNCHANGED img
+SaveLoadH5 == \/ /\ Mode = "h5" /\ steps < MaxCycles
+                 /\ hist' = Append(hist, "h5") /\ steps' = steps + 1 /\ UNCHANGED img
+              \* the average of at least two files is an image like any other: it survives the HDF5 cycle
+              \/ /\ Mode = "average" /\ steps >= 2 /\ steps <= MaxCycles + 1
+                 /\ hist' = Append(hist, 0) /\ steps' = MaxCycles + 2 /\ UNCHANGED img
 SaveLoadTiff(depth) == /\ Mode \in {"tiff", "tiffcolour"} /\ steps < 1
                        /\ (Mode = "tiffcolour" => depth = 8)        \* 16-bit colour is not a TIFF the imaging library writes
                        /\ hist' = Append(hist, <<"tiff", depth, UsableBits(depth)>>)
@@ -79,5 +82,5 @@ View == <<img, IF Mode = "average" THEN <<>> ELSE hist>>
 H5IsIdentity == [][(Mode = "h5") => img' = img]_vars
 UpdateTouchesOnlyNamed == [][(Mode = "update" /\ steps' = 1) =>
                                \A k \in Keys : (k \notin hist'[1]) => img'.attrs[k] = img.attrs[k]]_vars
-AverageCountsFiles == Mode = "average" => (img[1] + img[2] + img[3] + img[4] = steps)
+AverageCountsFiles == (Mode = "average" /\ steps <= MaxCycles + 1) => (img[1] + img[2] + img[3] + img[4] = steps)
 =============================================================================
